@@ -33,6 +33,10 @@ type imodel struct {
 	// own: the digest was inserted as a manifest (plain, tagged, as child) since it was last removed; it then does
 	// not depend on a referrers response that happens to have the same digest
 	own map[string]bool
+	// tagVer / subjVer: the version (carried in the descriptor's size) of the last insertion under a tag / a subject.  "Lookup
+	// by tag returns the last insertion for it" speaks of the descriptor, not only of its digest: a second push of the same
+	// digest under the same tag with other descriptor fields (media type, size, annotations) is the last insertion.
+	tagVer, subjVer map[string]int64
 }
 
 func (m *imodel) hasRef(d string) bool {
@@ -67,6 +71,16 @@ type op struct {
 	// ChildTag: the child descriptor carries the annotation org.opencontainers.image.ref.name, as the child entries of an
 	// index written by an image exporter do.  It is an annotation of a nested descriptor, not a tag of the repository.
 	ChildTag string `json:"childtag,omitempty"`
+	// Ver: version of a tagged / subject insertion, stored as the descriptor's size
+	Ver int64 `json:"ver,omitempty"`
+}
+
+func dscVer(d string, ann map[string]string, ver int64) types.Descriptor {
+	x := dsc(d, ann)
+	if ver > 0 {
+		x.Size = ver
+	}
+	return x
 }
 
 func childDsc(o op) types.Descriptor {
@@ -82,7 +96,7 @@ func genOp(r *rand.Rand) op {
 	case 0:
 		return op{Kind: "add", D: d}
 	case 1, 2:
-		o := op{Kind: "addtag", D: d, Tag: tags[r.Intn(len(tags))]}
+		o := op{Kind: "addtag", D: d, Tag: tags[r.Intn(len(tags))], Ver: 2 + r.Int63n(1000000)}
 		if r.Intn(3) == 0 {
 			c := digs[r.Intn(len(digs))]
 			if c != d {
@@ -94,8 +108,12 @@ func genOp(r *rand.Rand) op {
 		}
 		return o
 	case 3:
-		return op{Kind: "addsubj", D: d, Subj: subjs[r.Intn(len(subjs))]}
+		return op{Kind: "addsubj", D: d, Subj: subjs[r.Intn(len(subjs))], Ver: 2 + r.Int63n(1000000)}
 	case 4:
+		if r.Intn(3) == 0 {
+			// removal by digest with the entry a lookup returned: the descriptor still carries the subject annotation
+			return op{Kind: "rm", D: d, Subj: subjs[r.Intn(len(subjs))]}
+		}
 		return op{Kind: "rm", D: d}
 	case 5:
 		return op{Kind: "rmtag", D: d, Tag: tags[r.Intn(len(tags))]}
@@ -138,20 +156,27 @@ func apply(idx *types.Index, m *imodel, o op) {
 		if o.Child != "" {
 			opts = append(opts, types.IndexWithChildren([]types.Descriptor{childDsc(o)}))
 		}
-		idx.AddDesc(dsc(d, map[string]string{aTag: o.Tag}), opts...)
+		idx.AddDesc(dscVer(d, map[string]string{aTag: o.Tag}, o.Ver), opts...)
 		m.tags[o.Tag] = d
+		m.tagVer[o.Tag] = o.Ver
 		m.mem[d] = 1
 		m.own[d] = true
 	case "addsubj":
 		old, had := m.subj[o.Subj]
-		idx.AddDesc(dsc(d, map[string]string{aSubj: o.Subj}))
+		idx.AddDesc(dscVer(d, map[string]string{aSubj: o.Subj}, o.Ver))
 		m.subj[o.Subj] = d
+		m.subjVer[o.Subj] = o.Ver
 		m.mem[d] = 1
 		if had && old != d && !m.hasRef(old) && m.mem[old] == 1 && !m.own[old] {
 			m.mem[old] = 0 // previous response replaced; a digest that was only ever a response may go with it
 		}
 	case "rm":
-		idx.RmDesc(dsc(d, nil))
+		if o.Subj != "" {
+			// a descriptor with a digest and no tag removes the digest, whatever else it carries
+			idx.RmDesc(dsc(d, map[string]string{aSubj: o.Subj}))
+		} else {
+			idx.RmDesc(dsc(d, nil))
+		}
 		for k, v := range m.tags {
 			if v == d {
 				delete(m.tags, k)
@@ -277,6 +302,9 @@ func check(idx *types.Index, m *imodel) string {
 		if ok && (errA != nil || gotA.Digest.String() != want) {
 			return "lookup by tag annotation does not return the last insertion"
 		}
+		if v := m.tagVer[tg]; ok && v > 0 && (got.Size != v || gotA.Size != v) {
+			return "lookup by tag returns the descriptor of an earlier insertion"
+		}
 		if !ok && errA == nil {
 			return "lookup by tag annotation finds a removed tag"
 		}
@@ -286,6 +314,9 @@ func check(idx *types.Index, m *imodel) string {
 		want, ok := m.subj[s]
 		if ok && (err != nil || got.Digest.String() != want) {
 			return "lookup by subject does not return the last response"
+		}
+		if v := m.subjVer[s]; ok && v > 0 && got.Size != v {
+			return "lookup by subject returns the descriptor of an earlier response"
 		}
 		if !ok && err == nil {
 			return "lookup by subject finds a removed response"
@@ -365,7 +396,7 @@ type local struct {
 
 func runSeq(r *local, ops []op, record bool) string {
 	idx := types.Index{}
-	m := &imodel{tags: map[string]string{}, subj: map[string]string{}, mem: map[string]int{}, own: map[string]bool{}}
+	m := &imodel{tags: map[string]string{}, subj: map[string]string{}, mem: map[string]int{}, own: map[string]bool{}, tagVer: map[string]int64{}, subjVer: map[string]int64{}}
 	for _, d := range digs {
 		m.mem[d] = -1
 	}
@@ -454,5 +485,5 @@ func main() {
 	})
 	r.Require("sequences", 1000)
 	r.RequireDistinct("abstract_states", 500)
-	r.Finish("random sequences of 6-30 operations (AddDesc plain/tag/subject/with children, RmDesc in its four argument shapes, AddChildren, Copy after every step) over 4 digests x 3 tags x 2 subjects; a case is one sequence; distinct = distinct abstract model states (tag map, subject map, three-valued membership) reached", "sequences", "abstract_states")
+	r.Finish("random sequences of 6-30 operations (AddDesc plain/tag/subject/with children, RmDesc in its five argument shapes (by digest also with the descriptor a subject lookup returns), tagged and subject insertions versioned through the descriptor size, AddChildren, Copy after every step) over 4 digests x 3 tags x 2 subjects; a case is one sequence; distinct = distinct abstract model states (tag map, subject map, three-valued membership) reached", "sequences", "abstract_states")
 }
